@@ -37,6 +37,18 @@ CLAIMS = {
                 'rule tables in rules/C13.py.',
         'design': 'DESIGN.md section 3, C13',
     },
+    'C18': {
+        'technique': 'static analysis: must-pass-through dataflow (capture before every verdict), path-sensitive '
+                     'typestate on flag tests and exits, table/initialiser inspection, who-may-call/write scans',
+        'text': 'Decides that every verdict site in bus_dispatch is preceded by a successful capture of the same '
+                'message (with the recipient it is then routed to), refusals are captured as error replies, a '
+                'sending monitor is closed before any routing sink, BecomeMonitor is privileged and the flag is '
+                'enforced before the indirect handler call, and be_monitor does fallible steps first and then '
+                'drops rules, replies and names. All CFG paths incl. OOM edges.',
+        'note': NOT_DECIDED_COMMON + 'Not decided: exactly-one-copy over histories; equivalence of what other '
+                'clients observe with and without a monitor; monitor match-rule evaluation (C07).',
+        'design': 'DESIGN.md section 3, C18',
+    },
 }
 
 NOT_APPLICABLE = {
